@@ -8,6 +8,7 @@ Q3 transfer wait: cross-machine predecessors are collected, passed to do_work, w
    before the start is recorded; the wait is max(p.aft + io[p]/bandwidth(receiver) - now)
 """
 import ast
+import re
 
 from ..index import AnalysisError, is_spawn, walk_no_nested
 from ..norm import Canon, Lit, Logic, ProvCanon, affine, effects_of_event, lit_lt, effects_along
@@ -307,56 +308,78 @@ def q2(repo, res, canon, logic):
 
 # --------------------------------------------------------------------------- Q3
 def q3(repo, res, canon, pc, logic):
-    # (1) _find_pred_allocations keeps a predecessor iff it ran on another machine
-    f = repo.func('Scheduler._find_pred_allocations')
-    fr = Frame(f)
-    res.analysed(f, len(cached_paths(f)))
-    tparam, mparam, aparam = f.params[1], f.params[2], f.params[3]
     plogic = Logic(pc)
-    rets = [n for n in walk_no_nested(f.node) if isinstance(n, ast.Return) and n.value is not None]
-    ok = bool(rets)
-    why = 'nothing returned'
-    lp = rets
-    for r in rets:
-        parts = pc.seq_parts(r.value, fr)
+
+    def judge_list(value, fr, T, M, A=None):
+        """is `value` (in frame fr) the list of predecessors of T that ran on another machine than M,
+        looked up in the allocation record A (discovered from the element when None)?"""
+        parts = pc.seq_parts(value, fr)
         if parts is None:
-            ok, why = False, 'the transfer list is not "the predecessors whose machine differs" (%s)' % short(pc.p(r.value, fr))
-            continue
+            return False, 'the transfer list is not "the predecessors whose machine differs" (%s)' % short(pc.p(value, fr))
         elt, it, conds, lvars = parts
-        pair = '%s[elem(%s.pred)]' % (aparam, tparam)
         E = pc.p(elt, fr)
         src = pc._iter_p(it, fr, 0, frozenset())
-        if src not in ('%s.pred' % tparam, 'seq[%s for %s.pred]' % (pair, tparam)):
-            ok, why = False, 'the transfer list is built over %s, not over all predecessors of the task' % short(src)
-        elif E != pair + '[0]':
-            ok, why = False, 'the transfer list holds %s, not the predecessor tasks' % short(E)
-        else:
-            lits = set()
-            for c_, pol in conds:
-                lits |= plogic.must(c_, fr, pol)
-            a_, b_ = sorted([pair + '[1]', mparam])
-            want = Lit('%s == %s' % (a_, b_), False)
-            if lits != {want}:
-                ok, why = False, ('a predecessor is put on the transfer list under %s, not exactly when it ran on a '
-                                  'different machine: same-machine predecessors wait, or cross-machine ones do not' % (
-                                      sorted(map(repr, lits)) or 'no condition'))
-    (res.ok if ok else res.bad)('C03.Q3', f, rets[0] if rets else None,
-                                'cross-machine predecessors (and only those) are collected', 'ok' if ok else why)
-    # (2) passed on: scheduler -> cluster -> do_work
+        if A is None:
+            m_ = re.fullmatch(r'(.+)\[elem\(%s\.pred\)\]\[0\]' % re.escape(T), E)
+            A = m_.group(1) if m_ else '?'
+        pair = '%s[elem(%s.pred)]' % (A, T)
+        if src not in ('%s.pred' % T, 'seq[%s for %s.pred]' % (pair, T)):
+            return False, 'the transfer list is built over %s, not over all predecessors of the task' % short(src)
+        if E != pair + '[0]':
+            return False, 'the transfer list holds %s, not the predecessor tasks' % short(E)
+        lits = set()
+        for c_, pol in conds:
+            lits |= plogic.must(c_, fr, pol)
+        a_, b_ = sorted([pair + '[1]', M])
+        want = Lit('%s == %s' % (a_, b_), False)
+        if lits != {want}:
+            return False, ('a predecessor is put on the transfer list under %s, not exactly when it ran on a '
+                           'different machine: same-machine predecessors wait, or cross-machine ones do not' % (
+                               sorted(map(repr, lits)) or 'no condition'))
+        return True, 'ok'
     s = repo.func('Scheduler._process_current_schedule')
     sfr = Frame(s)
     sp = [n for n in walk_no_nested(s.node) if is_spawn(n) and call_name(n.args[0]) == 'allocate_task_to_cluster']
-    ok = False
-    if sp:
-        a = bound_args(repo, 'Cluster.allocate_task_to_cluster', sp[0].args[0], sfr)
-        v = a.get('predecessor_allocations')
-        if v is not None:
-            P = pc.p(v, sfr)
-            T, M = pc.p(a['task'], sfr), pc.p(a['machine'], sfr)
-            ok = P.startswith('Scheduler._find_pred_allocations(%s, %s, ' % (T, M))
-    (res.ok if ok else res.bad)('C03.Q3', s, sp[0] if sp else None,
-                                'scheduler passes _find_pred_allocations(task, machine, ...) to the cluster',
-                                'ok' if ok else 'the cross-machine predecessor list no longer reaches the cluster allocation')
+    if repo.has_func('Scheduler._find_pred_allocations'):
+        # (1) _find_pred_allocations keeps a predecessor iff it ran on another machine
+        f = repo.func('Scheduler._find_pred_allocations')
+        fr = Frame(f)
+        res.analysed(f, len(cached_paths(f)))
+        tparam, mparam, aparam = f.params[1], f.params[2], f.params[3]
+        rets = [n for n in walk_no_nested(f.node) if isinstance(n, ast.Return) and n.value is not None]
+        ok = bool(rets)
+        why = 'nothing returned'
+        for r in rets:
+            o, w = judge_list(r.value, fr, tparam, mparam, aparam)
+            if not o:
+                ok, why = False, w
+        (res.ok if ok else res.bad)('C03.Q3', f, rets[0] if rets else None,
+                                    'cross-machine predecessors (and only those) are collected', 'ok' if ok else why)
+        # (2) passed on: scheduler -> cluster -> do_work
+        ok = False
+        if sp:
+            a = bound_args(repo, 'Cluster.allocate_task_to_cluster', sp[0].args[0], sfr)
+            v = a.get('predecessor_allocations')
+            if v is not None:
+                P = pc.p(v, sfr)
+                T, M = pc.p(a['task'], sfr), pc.p(a['machine'], sfr)
+                ok = P.startswith('Scheduler._find_pred_allocations(%s, %s, ' % (T, M))
+        (res.ok if ok else res.bad)('C03.Q3', s, sp[0] if sp else None,
+                                    'scheduler passes _find_pred_allocations(task, machine, ...) to the cluster',
+                                    'ok' if ok else 'the cross-machine predecessor list no longer reaches the cluster allocation')
+    else:
+        # the list is built where it is used: judge the third argument of the allocation spawn itself
+        ok, why = False, 'the cross-machine predecessor list no longer reaches the cluster allocation'
+        if sp:
+            a = bound_args(repo, 'Cluster.allocate_task_to_cluster', sp[0].args[0], sfr)
+            v = a.get('predecessor_allocations')
+            if v is not None:
+                T, M = pc.p(a['task'], sfr), pc.p(a['machine'], sfr)
+                ok, why = judge_list(v, sfr, T, M)
+        (res.ok if ok else res.bad)('C03.Q3', s, sp[0] if sp else None,
+                                    'cross-machine predecessors (and only those) are collected and passed to the cluster',
+                                    'ok' if ok else why)
+        res.ok('C03.Q3', s, sp[0] if sp else None, '(the list is built in the submitting function itself)')
     c = repo.func('Cluster.allocate_task_to_cluster')
     cfr = Frame(c)
     n_ok = n_bad = 0
